@@ -13,6 +13,7 @@ import Biogo.Model.Feat
 import Biogo.Spec.Gene
 import Biogo.Proofs.Gene
 import Biogo.Proofs.Feat
+import Biogo.Generated.GeneFacts
 
 namespace Biogo.Properties.C20
 open Biogo.Gene Biogo.Feat Biogo.Spec.Gene Biogo.Proofs.Gene Biogo.Proofs.Feat
@@ -499,6 +500,22 @@ example :
     let t : Coding := { node := ⟨1, 20, some 1⟩, loc := [⟨2, 100, some (-1)⟩, ⟨3, 0, none⟩], cdsStart := 100, cdsEnd := 500, len := 800 }
     baseOrientationOf (t.node :: t.loc) = .ok (-1, 3) ∧ utr3 t = .ok (0, 100) ∧ utr5 t = .ok (500, 300) := by
   refine ⟨rfl, rfl, rfl⟩
+
+/-! ## Facts regenerated from the source on every run -/
+
+/-- every depth loop of `BasePositionOf`, `PositionWithin`, `BaseOrientationOf` (two loops) and
+    `OrientationWithin` in `feat/feature.go` is `for n := 0; n < 1000; n++`: the fuel the model
+    runs with, and the bound the theorems above are stated for, is the one in the source. -/
+theorem source_depth_limits :
+    Biogo.Generated.featLoopBounds =
+      [("BasePositionOf", limit), ("PositionWithin", limit), ("BaseOrientationOf", limit),
+       ("BaseOrientationOf", limit), ("OrientationWithin", limit)] := by decide
+
+/-- before its checking loop `Exons.Add` calls `make`, `copy`, `append`, `sort.Sort`, in this
+    order — the sequence `addWith` is written with (on the pinned tree it was `append`,
+    `sort.Sort`: `addPinnedWith`). -/
+theorem source_add_prologue :
+    Biogo.Generated.addPrologue = ["make", "copy", "append", "sort.Sort"] := by decide
 
 /-! ## 1-based / 0-based conversions are mutually inverse -/
 
